@@ -2185,6 +2185,15 @@ impl Driver {
         }
         let dl = if classes.is_empty() { String::new() } else { format!(" defects={}", classes.join(",")) };
         k.put(&format!("doc {kind} v={} h={:016x} len={}{dl}", ver.filename(), fnv(bytes), bytes.len()), &format!("strict={} lenient={}", o.strict_ans, o.lenient_ans), true);
+        // the same document through the world protocol, so that the Lean model of the parser and of the serializer answers it
+        // (quick tier: a sample of one document in six, chosen by the hash of the text, and no large ones)
+        let sampled = THOROUGH.load(std::sync::atomic::Ordering::Relaxed) || (fnv(bytes) % 6 == 0 && bytes.len() <= 6_000);
+        if sampled && bytes.len() <= 24_000 {
+            k.stat("documents_sent_to_the_model");
+            for (r, a) in crate::world::doc_lines(bytes, true) {
+                k.put(&r, &a, false);
+            }
+        }
         let mut seen: HashSet<(&str, &str)> = HashSet::new();
         let mut sig_seen = false;
         for f in &o.fails {
@@ -2216,7 +2225,10 @@ impl Driver {
 
 const LATEST_HEAD: &str = "<?xml version=\"1.0\" encoding=\"utf-8\"?>\n<AUTOSAR xsi:schemaLocation=\"http://autosar.org/schema/r4.0 AUTOSAR_00053.xsd\" xmlns=\"http://autosar.org/schema/r4.0\" xmlns:xsi=\"http://www.w3.org/2001/XMLSchema-instance\">";
 
+static THOROUGH: std::sync::atomic::AtomicBool = std::sync::atomic::AtomicBool::new(false);
+
 pub fn run(out: &str, seed: u64, thorough: bool, _side: &str) {
+    THOROUGH.store(thorough, std::sync::atomic::Ordering::Relaxed);
     let t0 = Instant::now();
     let prev = std::panic::take_hook();
     std::panic::set_hook(Box::new(|_| {}));
